@@ -54,14 +54,13 @@ theorem C01_init (c : Cache.Ctor) (now : Int) (h0 : 0 ≤ now) :
     fun d cb => ⟨⟨AMap.WF_nil, (fun p hp => by cases hp), h0⟩, AMap.WF_nil, rfl, rfl, rfl, fun _ => rfl⟩
   cases c with
   | newOpts d i cb m =>
-    simp only [Cache.construct, Cache.newXsyncMap, TTL.construct, TTL.init]
-    rw [Proofs.LeafCache.configDefault_spec]
     cases d <;> cases i <;> cases cb <;> cases m <;>
-      simp [Gen.DefaultConfig_, Gen.NoExpiration, TTL.NoExpiration] <;> first | exact wf0 _ _ | (split <;> exact wf0 _ _)
+      simp [Cache.construct, Cache.newXsyncMap, TTL.construct, TTL.init, Gen.newXsyncMap_dflt, Gen.newXsyncMap_hasCb, Gen.newXsyncMap_janitor, Gen.NewDefault_cfg, Gen.New_cfg, Gen.WithDefaultExpiration, Gen.WithCleanupInterval, Gen.WithEvictedCallback, Gen.WithMinCapacity, List.foldl, Proofs.LeafCache.configDefault_spec,
+        Gen.DefaultConfig_, Gen.NoExpiration, TTL.NoExpiration] <;> first | exact wf0 _ _ | (split <;> exact wf0 _ _)
   | newDefault d i cb =>
-    simp only [Cache.construct, Cache.newXsyncMap, TTL.construct, TTL.init]
-    rw [Proofs.LeafCache.configDefault_spec]
-    cases cb <;> simp <;> split <;> exact wf0 _ _
+    cases cb <;>
+      simp [Cache.construct, Cache.newXsyncMap, TTL.construct, TTL.init, Gen.newXsyncMap_dflt, Gen.newXsyncMap_hasCb, Gen.newXsyncMap_janitor, Gen.NewDefault_cfg, Gen.New_cfg, Gen.WithDefaultExpiration, Gen.WithCleanupInterval, Gen.WithEvictedCallback, Gen.WithMinCapacity, List.foldl, Proofs.LeafCache.configDefault_spec,
+        Gen.NoExpiration, TTL.NoExpiration] <;> first | exact wf0 _ _ | (split <;> exact wf0 _ _)
 
 /-- the generic twin takes the same steps (so every statement above holds for `CacheOf` too) -/
 theorem C01_twin (s : Cache.St K V) (op : Op K V) : CacheOf.step s op = Cache.step s op :=
